@@ -36,7 +36,7 @@ struct Registry {
 };
 
 using Image = std::array<uint8_t, 32>;
-inline Image store(const polyseed_data* s) { Image b; polyseed_store(s, b.data()); return b; }
+inline Image store(const polyseed_data* s) { Image b; b.fill(0xC3); /* what the caller's buffer held before is irrelevant */ polyseed_store(s, b.data()); return b; }
 inline model::Seed abstract(const polyseed_data* s) { // abstract seed read back through the serialisation only
     Image b = store(s); model::Seed m; memcpy(m.secret.data(), b.data() + 10, 19); unsigned v = b[8] | (b[9] << 8); m.birthday = v & 1023u; m.features = (v >> 10) & 31u; return m;
 }
